@@ -41,10 +41,10 @@ PROPS = {
     "C17": dict(
         level="exploration",
         technique="crash-point fault injection with a model-based restart oracle: the generated history runs in a forked child whose stdio / rename / remove calls made by the persistence code are counted (ld --wrap) and which _exit()s before or after the k-th call; a fresh server is restarted on the files and compared with the model's state before / after the interrupted operation; enumerated over every k of a catalogue, generated over histories and crash points",
-        level_text="Histories of 1..12 create / delete / register / cancel / change operations over 3 dynamic resources and 3 observers, save_freq 1..10; per history the crash-free run (abrupt and orderly stop) and up to 4 crash points; the enumeration tier crashes before and after every I/O call of 5 catalogue histories.",
+        level_text="Histories of 1..12 create / delete / register / cancel / change operations over 3 dynamic resources and 3 observers, save_freq 1..10; per history the crash-free run (abrupt and orderly stop) and up to 4 crash points; the enumeration tier crashes before and after every I/O call of the last life of 7 catalogue histories (two of them with several kill/restart cycles).",
         level_note="Trusted base: the I/O wrappers and fork logic in props/C17.cc, sim/sim.cc. Crash model: process kill (_exit loses unflushed stdio buffers, data handed to the kernel survives), not power loss. The raw file layout (struct dumps with pointers) is not parsed by an own reader; torn files are judged by what a restarted server makes of them.",
-        quick=enum(6, 5 * 700 * 2) + rc(6, 500),
-        thorough=enum(4, 5 * 700 * 2) + rc(12, 6000),
+        quick=enum(6, 7 * 700 * 2) + rc(6, 400),
+        thorough=enum(4, 7 * 700 * 2) + rc(12, 6000),
         wraps=SIM_WRAPS + ["fopen", "fread", "fwrite", "fgets", "fprintf", "fflush", "fclose", "rename", "remove"],
         extra_sources=["sim/sim.cc"],
         case_timeout=120,
